@@ -729,6 +729,10 @@ func (ss *sessState) doStep(i int, st *plan.Step) (obs string) {
 		}
 		s, err := q.QueryString()
 		return fmt.Sprintf("query_string err=%q s=%s", normErr(err), s)
+	case "drop":
+		// the session forgets a handle of its own (a short-lived Path / FieldQuery)
+		delete(ss.handles, st.H)
+		return "drop"
 	case "gc":
 		runtime.GC()
 		if st.N > 1 {
